@@ -212,6 +212,7 @@ type Step struct {
 	Expected any            `json:"expected,omitempty"`
 	Observed any            `json:"observed,omitempty"`
 	Dev      string         `json:"dev,omitempty"`
+	Blind    bool           `json:"blind,omitempty"` // the step was applied without looking at the object afterwards
 }
 
 // Divergence is a replayed step on which the real object's projection matched
@@ -254,6 +255,9 @@ type Result struct {
 	DevCounts     map[string]int `json:"dev_counts"`
 	Samples       [][]Step       `json:"samples"`
 	TimedOut      bool           `json:"timed_out"`
+	RandomWalks   int            `json:"random_walks,omitempty"`
+	RandomSteps   int            `json:"random_steps,omitempty"`
+	BlindSteps    int            `json:"blind_steps,omitempty"`
 	WallS         float64        `json:"wall_s"`
 	Note          string         `json:"note,omitempty"`
 }
@@ -264,6 +268,16 @@ type Options struct {
 	Budget     time.Duration
 	MaxWalkLen int
 	MaxDiv     int // stop after this many divergences
+	// RandomFor: after the transition tour, keep walking for this long choosing successors uniformly at random.
+	// A tour executes every transition once, after whatever prefix led there; an implementation can carry state the
+	// specification does not have (a cached bound, a pooled object), so that a step misbehaves only after a particular
+	// HISTORY. Random walks add path diversity on top of edge coverage.
+	RandomFor time.Duration
+	// BlindProb: in the random phase, the probability that a step is applied WITHOUT projecting the object afterwards
+	// (the candidate set then becomes every successor the specification allows under that label). Observing after every
+	// step can itself repair the implementation's state (a listing that triggers a cleanup), hiding defects that need
+	// two updates in a row with no query in between. Only for harnesses whose Project is not needed as a barrier.
+	BlindProb float64
 }
 
 // ReplayFile is what `VIOLATION ... replay=<path>` points at.
@@ -383,28 +397,54 @@ func Walk(g *Graph, h Harness, opt Options) *Result {
 	rng.Shuffle(len(initOrder), func(i, j int) { initOrder[i], initOrder[j] = initOrder[j], initOrder[i] })
 	initPos := 0
 
-	for remaining > 0 && len(res.Divergences) < opt.MaxDiv {
-		if opt.Budget > 0 && time.Now().After(deadline) {
-			res.TimedOut = true
+	random := false
+	hasDeadline := opt.Budget > 0
+	goRandom := func() bool {
+		if random || opt.RandomFor <= 0 {
+			return false
+		}
+		random = true
+		rdl := time.Now().Add(opt.RandomFor)
+		if hasDeadline && rdl.After(deadline) {
+			rdl = deadline
+		}
+		deadline, hasDeadline = rdl, true
+		return true
+	}
+	for len(res.Divergences) < opt.MaxDiv {
+		if remaining <= 0 && !random && !goRandom() {
 			break
 		}
-		if dirty && lastSteps == 0 {
+		if hasDeadline && time.Now().After(deadline) {
+			if !random {
+				res.TimedOut = true
+			}
+			break
+		}
+		if !random && dirty && lastSteps == 0 {
 			// distances are refreshed lazily: only when the previous walk found nothing to do
 			recompute()
 			dirty = false
 		}
 		lastSteps = 0
 		s0 := -1
-		for k := 0; k < len(initOrder); k++ {
-			c := initOrder[(initPos+k)%len(initOrder)]
-			if dist[c] >= 0 {
-				s0 = c
-				initPos = (initPos + k + 1) % len(initOrder)
-				break
+		if random {
+			s0 = initOrder[rng.Intn(len(initOrder))]
+		} else {
+			for k := 0; k < len(initOrder); k++ {
+				c := initOrder[(initPos+k)%len(initOrder)]
+				if dist[c] >= 0 {
+					s0 = c
+					initPos = (initPos + k + 1) % len(initOrder)
+					break
+				}
 			}
 		}
 		if s0 < 0 {
 			res.Note = fmt.Sprintf("%d edge groups unreachable from Init through matched successors", remaining)
+			if goRandom() {
+				continue
+			}
 			break
 		}
 		init := g.states[s0]
@@ -423,24 +463,29 @@ func Walk(g *Graph, h Harness, opt Options) *Result {
 			continue
 		}
 		res.Walks++
+		if random {
+			res.RandomWalks++
+		}
 		cur := []int{s0}
 		var prefix []Step
 		for len(prefix) < opt.MaxWalkLen {
-			if opt.Budget > 0 && time.Now().After(deadline) {
-				res.TimedOut = true
+			if hasDeadline && time.Now().After(deadline) {
+				if !random {
+					res.TimedOut = true
+				}
 				break
 			}
 			// pick next edge from any candidate state: an uncovered group, else
-			// one that moves toward an uncovered group
+			// one that moves toward an uncovered group (random phase: any edge)
 			var cands []int
 			for _, s := range cur {
 				for _, ei := range g.out[s] {
-					if !groupDone[g.edges[ei].group] {
+					if random && !dead[ei] || !random && !groupDone[g.edges[ei].group] {
 						cands = append(cands, ei)
 					}
 				}
 			}
-			if len(cands) == 0 {
+			if len(cands) == 0 && !random {
 				if dirty {
 					recompute()
 					dirty = false
@@ -462,6 +507,30 @@ func Walk(g *Graph, h Harness, opt Options) *Result {
 			}
 			chosenIdx := cands[rng.Intn(len(cands))]
 			chosen := g.edges[chosenIdx]
+			if random && opt.BlindProb > 0 && rng.Float64() < opt.BlindProb {
+				if err := h.Apply(chosen.act); err != nil {
+					res.Divergences = append(res.Divergences, Divergence{Kind: "error", Init: init, Prefix: prefix, State: g.abs[cur[0]], Act: chosen.act, Err: err.Error()})
+					break
+				}
+				res.Steps++
+				res.RandomSteps++
+				res.BlindSteps++
+				nextB := map[int]bool{}
+				for _, s := range cur {
+					for _, ei := range g.out[s] {
+						if g.edges[ei].label == chosen.label {
+							nextB[g.edges[ei].to] = true
+						}
+					}
+				}
+				prefix = append(prefix, Step{Act: chosen.act, Blind: true})
+				cur = cur[:0]
+				for s := range nextB {
+					cur = append(cur, s)
+				}
+				sort.Ints(cur)
+				continue
+			}
 			err := h.Apply(chosen.act)
 			var obs any
 			if err == nil {
@@ -469,6 +538,9 @@ func Walk(g *Graph, h Harness, opt Options) *Result {
 			}
 			res.Steps++
 			lastSteps++
+			if random {
+				res.RandomSteps++
+			}
 			oc := ""
 			if err == nil {
 				oc = Canon(obs)
@@ -590,12 +662,41 @@ func ReplayWalk(g *Graph, h Harness, rf *ReplayFile) *Result {
 	var prefix []Step
 	for _, a := range rf.Actions {
 		lab := map[string]any{}
+		blindStep := false
 		for k, v := range a {
-			if k != "dev" {
+			if k == "_blind" {
+				blindStep = true
+			} else if k != "dev" {
 				lab[k] = v
 			}
 		}
 		label := Canon(lab)
+		if blindStep {
+			if err := h.Apply(lab); err != nil {
+				res.Divergences = append(res.Divergences, Divergence{Kind: "error", Init: rf.Init, Prefix: prefix, Act: lab, Err: err.Error()})
+				break
+			}
+			res.Steps++
+			nb := map[int]bool{}
+			for _, s := range cur {
+				for _, ei := range g.out[s] {
+					if g.edges[ei].label == label {
+						nb[g.edges[ei].to] = true
+					}
+				}
+			}
+			prefix = append(prefix, Step{Act: lab, Blind: true})
+			cur = cur[:0]
+			for s := range nb {
+				cur = append(cur, s)
+			}
+			sort.Ints(cur)
+			if len(cur) == 0 {
+				res.Note = "replay: blind step has no successor in the graph"
+				break
+			}
+			continue
+		}
 		err := h.Apply(lab)
 		var obs any
 		if err == nil {
@@ -682,7 +783,9 @@ func Main(h Harness) error {
 		}
 		res = ReplayWalk(g, h, &rf)
 	} else {
-		res = Walk(g, h, Options{Seed: seed, Budget: time.Duration(budget * float64(time.Second)), MaxWalkLen: maxLen})
+		rnd, _ := strconv.ParseFloat(os.Getenv("VERIF_RANDOM_S"), 64)
+		blind, _ := strconv.ParseFloat(os.Getenv("VERIF_BLIND_P"), 64)
+		res = Walk(g, h, Options{Seed: seed, Budget: time.Duration(budget * float64(time.Second)), MaxWalkLen: maxLen, RandomFor: time.Duration(rnd * float64(time.Second)), BlindProb: blind})
 	}
 	out, err := json.Marshal(res)
 	if err != nil {
